@@ -35,12 +35,7 @@ Fixpoint indent (n : nat) : list N :=      (* append_indent: three spaces per le
 
 (* items separated by ",\n" (append_key / append_array_head: nothing before
    the first item of a builder, ",\n" before every other one) *)
-Fixpoint sep_items (items : list (list N)) : list N :=
-  match items with
-  | [] => []
-  | [x] => x
-  | x :: rest => x ++ [44; 10] ++ sep_items rest
-  end.
+Definition sep_items (items : list (list N)) : list N := sep_by [44; 10] items.
 
 (* the text written for a value by a builder whose own indentation is [i]
    (its items are at [S i]) *)
